@@ -1,7 +1,125 @@
-//! C14 - placeholder, replaced below.
-use crate::model::Analysis;
-use crate::oracle::{Aux, Tally, Violation};
+//! C14 - DNS: IN/A queries get a faithful, parseable answer with the queried address.
 
-pub fn check(_a: &Analysis, _aux: &mut Aux, _t: &mut Tally) -> Vec<Violation> {
-    Vec::new()
+use std::net::IpAddr;
+
+use crate::apps::dns::{self, QueryClass};
+use crate::apps::sig::{self, Decision};
+use crate::model::Analysis;
+use crate::oracle::{size_class, Aux, Tally, Verdict, Violation};
+
+pub fn check(a: &Analysis, _aux: &mut Aux, t: &mut Tally) -> Vec<Violation> {
+    let mut v = Vec::new();
+    let sigs = sig::signatures();
+    for x in a.udp_exchanges() {
+        let dst4 = match x.dst {
+            IpAddr::V4(d) if !x.v6 => d,
+            _ => continue,
+        };
+        let idx = a.steps[x.si].idx;
+        let class = dns::classify_query(x.payload);
+        if matches!(class, QueryClass::Response) {
+            continue; // C12
+        }
+        if sig::decide(&sigs, x.payload, true) != Decision::NoMatch {
+            if matches!(class, QueryClass::InA(_)) {
+                t.any("query-completes-another-signature");
+            }
+            continue;
+        }
+        let mut bad = |rule: &str, detail: String| {
+            v.push(Violation {
+                prop: "C14",
+                rule: rule.into(),
+                key: format!("dns:{}", rule),
+                step: idx,
+                detail,
+            });
+        };
+        match class {
+            QueryClass::InA(qs) => {
+                let h = dns::header(x.payload).unwrap();
+                let maxname = qs.iter().map(|q| q.name_wire.len()).max().unwrap_or(0);
+                t.judged(
+                    Verdict::Reply,
+                    format!(
+                        "in-a|qd{}|name{}|op{}|rd{}|flags{}",
+                        qs.len().min(4),
+                        size_class(maxname),
+                        h.opcode().min(3),
+                        h.rd() as u8,
+                        (h.flags & 0x06ff != 0) as u8
+                    ),
+                );
+                if maxname == 255 {
+                    t.probe("name-of-255-bytes");
+                }
+                if qs.iter().any(|q| q.name_wire.len() > 1 && q.name_wire[0] == 63) {
+                    t.probe("label-of-63-bytes");
+                }
+                let r = match x.reply {
+                    Some(r) => r,
+                    None => {
+                        bad("unanswered", format!("IN/A query with {} question(s) to {} was not answered", qs.len(), dst4));
+                        continue;
+                    }
+                };
+                let m = match dns::decode(r) {
+                    Ok(m) => m,
+                    Err(e) => {
+                        bad("unparseable", format!("response does not parse: {}", e));
+                        continue;
+                    }
+                };
+                if m.consumed != r.len() {
+                    bad("trailing", format!("{} bytes follow the records announced by the section counts", r.len() - m.consumed));
+                }
+                if m.h.id != h.id {
+                    bad("id", format!("response id {:#06x}, query id {:#06x}", m.h.id, h.id));
+                }
+                if !m.h.qr() {
+                    bad("qr", "response has QR=0".into());
+                }
+                if m.h.opcode() != h.opcode() {
+                    bad("opcode", format!("response opcode {}, query opcode {}", m.h.opcode(), h.opcode()));
+                }
+                if m.h.rd() != h.rd() {
+                    bad("rd", format!("response RD {}, query RD {}", m.h.rd(), h.rd()));
+                }
+                let qsec = &x.payload[12..];
+                if r.len() < 12 + qsec.len() || &r[12..12 + qsec.len()] != qsec {
+                    bad("question-echo", "question section is not echoed byte for byte".into());
+                }
+                if m.answers.len() != qs.len() {
+                    bad("answer-count", format!("{} answers for {} questions", m.answers.len(), qs.len()));
+                }
+                if !m.authority.is_empty() || !m.additional.is_empty() {
+                    // allowed by the statement as long as the counts match; nothing to check
+                }
+                for (k, (q, an)) in qs.iter().zip(m.answers.iter()).enumerate() {
+                    if an.name != q.name_wire {
+                        bad("answer-owner", format!("answer {} is owned by another name than question {}", k, k));
+                    }
+                    if an.rtype != 1 || an.rclass != 1 {
+                        bad("answer-type", format!("answer {} has type {} class {}", k, an.rtype, an.rclass));
+                    }
+                    if an.rdata != dst4.octets() {
+                        bad("answer-rdata", format!("answer {} RDATA {:?}, the query was sent to {}", k, an.rdata, dst4));
+                    }
+                }
+            }
+            QueryClass::NotInA | QueryClass::Truncated => {
+                let why = if class == QueryClass::NotInA { "not-in-a" } else { "truncated" };
+                if x.payload.len() < 12 && why == "truncated" && x.payload.len() < 2 {
+                    continue; // not recognisably DNS at all
+                }
+                t.judged(Verdict::Silent, format!("{}|{}", why, size_class(x.payload.len())));
+                if x.reply.is_some() {
+                    bad(&format!("answered-{}", why), format!("{} DNS message of {} bytes was answered", why, x.payload.len()));
+                }
+            }
+            QueryClass::DontCare(w) => t.any(w),
+            QueryClass::Response => {}
+        }
+    }
+    v
 }
